@@ -89,6 +89,10 @@ struct Band {
     center_k: u64, // center price = center_k * tick
     half: u64,     // half width in ticks
     max_k: u64,    // largest k with k*tick < PMAX
+    /// mirror mode (ticks dividing 2^32-1 only): half of the prices are reflected to 2^32-1 - p, which is again a
+    /// valid grid price; books then hold orders at p and at its mirror image on the *same* side, which is where a
+    /// mix-up between real prices and inverted bid keys would show
+    mirror: bool,
 }
 
 impl Band {
@@ -96,7 +100,12 @@ impl Band {
         let lo = self.center_k.saturating_sub(self.half).max(1);
         let hi = (self.center_k + self.half).min(self.max_k);
         let k = rng.range(lo, hi.max(lo));
-        (k * self.tick as u64) as u32
+        let p = (k * self.tick as u64) as u32;
+        if self.mirror && rng.chance(0.5) {
+            PMAX - p
+        } else {
+            p
+        }
     }
 }
 
@@ -122,7 +131,7 @@ impl RndGen {
         let rng = &mut self.rng;
         let tick = rng.range(1, p.max_tick as u64) as u32;
         let levels = *rng.pick(p.levels);
-        let t0 = if rng.chance(0.2) { rng.below(1 << 40) } else { rng.below(1000) };
+        let t0 = if rng.chance(0.2) { rng.below(1 << 40) } else if rng.chance(0.25) { 0 } else { rng.below(1000) };
         let trading0 = !rng.chance(p.p_start_disabled);
         let cfg = Cfg { tick, levels, t0, trading0 };
         let max_k = ((PMAX as u64) - 1) / tick as u64; // k*tick <= PMAX-1 < PMAX
@@ -133,7 +142,8 @@ impl RndGen {
             1 => max_k - rng.below(6),           // just below the largest grid price
             _ => rng.range(50, 100_000),
         };
-        let mut band = Band { tick, center_k, half: rng.range(1, 20), max_k };
+        let mirror = (PMAX as u64) % (tick as u64) == 0 && rng.chance(0.12);
+        let mut band = Band { tick, center_k, half: if mirror { rng.range(0, 2) } else { rng.range(1, 20) }, max_k, mirror };
         let large_hist = rng.chance(p.p_large);
         let n_ops = rng.range(p.ops.0 as u64, p.ops.1 as u64) as usize;
 
@@ -464,6 +474,11 @@ pub struct ExhCfg {
     pub vols: [u32; 2],
     pub tick: u32,
     pub levels: usize,
+    /// also enumerate `Create` (limit order created but not placed; placed later by `Place(k)`), so that orders in
+    /// status New take part in cancels, modifies and late placements
+    pub creates: bool,
+    /// start time of the book (0 makes the first queue stamp coincide with the provisional key time of unplaced orders)
+    pub t0: u64,
 }
 
 impl ExhCfg {
@@ -478,11 +493,16 @@ impl ExhCfg {
             for v in self.vols {
                 out.push(Op::CreatePlace { bid, vol: v, trader: 7, price: None });
             }
+            if self.creates {
+                for p in self.prices {
+                    out.push(Op::Create { bid, vol: self.vols[1], trader: 7, price: Some(p) });
+                }
+            }
         }
         for k in 0..n_orders {
             out.push(Op::Cancel(k));
         }
-        if self.redundant_place {
+        if self.redundant_place || self.creates {
             for k in 0..n_orders {
                 out.push(Op::Place(k));
             }
@@ -510,8 +530,8 @@ impl ExhCfg {
             if left == 0 {
                 return 1;
             }
-            let place = 16u128;
-            let others = (n as u128) * (1 + if c.redundant_place { 1 } else { 0 } + if c.modifies { 15 } else { 0 }) + if c.toggle { 1 } else { 0 };
+            let place = 16u128 + if c.creates { 6 } else { 0 };
+            let others = (n as u128) * (1 + if c.redundant_place || c.creates { 1 } else { 0 } + if c.modifies { 15 } else { 0 }) + if c.toggle { 1 } else { 0 };
             let a = c.advances.len() as u128;
             a * (place * rec(c, n + 1, left - 1) + others * rec(c, n, left - 1))
         }
@@ -542,7 +562,7 @@ pub fn enumerate(cfg: &ExhCfg, prefix: &[(usize, usize)], leaf: &mut dyn FnMut(&
             trading = !trading;
             op = Op::SetTrading(trading);
         }
-        if matches!(op, Op::CreatePlace { .. }) {
+        if matches!(op, Op::CreatePlace { .. } | Op::Create { .. }) {
             n_orders += 1;
         }
         ops.push(op);
@@ -566,7 +586,7 @@ pub fn enumerate(cfg: &ExhCfg, prefix: &[(usize, usize)], leaf: &mut dyn FnMut(&
                     tr = !trading;
                     op = Op::SetTrading(tr);
                 }
-                let n2 = if matches!(op, Op::CreatePlace { .. }) { n_orders + 1 } else { n_orders };
+                let n2 = if matches!(op, Op::CreatePlace { .. } | Op::Create { .. }) { n_orders + 1 } else { n_orders };
                 ops.push(op);
                 rec(cfg, ops, n2, tr, left - 1, leaf);
                 ops.truncate(mark);
@@ -588,7 +608,7 @@ pub fn prefixes(cfg: &ExhCfg, d: usize) -> Vec<Vec<(usize, usize)>> {
             let mut n_orders = 0usize;
             for (_, oi) in pre {
                 cfg.alphabet_at(n_orders, &mut alpha);
-                if matches!(alpha[*oi], Op::CreatePlace { .. }) {
+                if matches!(alpha[*oi], Op::CreatePlace { .. } | Op::Create { .. }) {
                     n_orders += 1;
                 }
             }
@@ -610,5 +630,5 @@ pub fn exh_history(cfg: &ExhCfg, ops: &[Op]) -> History {
     let mut v = ops.to_vec();
     let trading_at_end = ops.iter().rev().find_map(|o| if let Op::SetTrading(x) = o { Some(*x) } else { None }).unwrap_or(true);
     push_drain_tail(&mut v, trading_at_end);
-    History { cfg: Cfg { tick: cfg.tick, levels: cfg.levels, t0: 10, trading0: true }, ops: v }
+    History { cfg: Cfg { tick: cfg.tick, levels: cfg.levels, t0: cfg.t0, trading0: true }, ops: v }
 }
